@@ -176,22 +176,33 @@ def main(ctx, args):
         st["boundaries"] += s["nvi"]
         st["two_window_boundaries"] = st.get("two_window_boundaries", 0) + s["nvi2"]
 
-    def validate(k):
+    def validate(k, heap="3g"):
         f = ctx.path("trace", "t%d.ndjson" % k)
         with open(f, "w") as fh:
             for r in shards[k]:
                 fh.write(json.dumps(r) + "\n")
         e = dict(env)
         e["TRACE"] = f
-        r = tlc(ctx, "TraceTerm", os.path.join(SPEC, "TraceTerm.cfg"), env=e, workers=1, timeout=3000, heap="3g")
+        r = tlc(ctx, "TraceTerm", os.path.join(SPEC, "TraceTerm.cfg"), env=e, workers=1, timeout=3000, heap=heap)
         if not r["ok"]:
-            raise Infra("trace validation did not complete (shard %d): %s\n%s" % (k, r.get("error"), r["out"][-2500:]))
+            m = re.search(r"(?s)overridden by the Java method.{0,1200}", r["out"])
+            raise Infra("trace validation did not complete (shard %d): %s\n%s\n%s" % (k, r.get("error"), m.group(0) if m else "", r["out"][-1500:]))
         v = tlc_printed(r["out"], "VIOL")
         if not v:
             raise Infra("trace validation printed no verdict (shard %d)" % k)
         return v[-1], len(shards[k])
+    def attempt(k):
+        try:
+            return validate(k)
+        except Infra as x:
+            return x
     with ThreadPoolExecutor(NCPU) as ex:
-        verdicts = list(ex.map(validate, range(len(shards))))
+        verdicts = list(ex.map(attempt, range(len(shards))))
+    # a shard that did not complete while sixteen ran side by side (memory) is run again on its own with a larger heap
+    for k, v in enumerate(verdicts):
+        if isinstance(v, Infra):
+            ctx.notes.append("shard %d was validated again on its own: %s" % (k, str(v)[:300]))
+            verdicts[k] = validate(k, heap="10g")
     samples = []
     for k, (v, nev) in enumerate(verdicts):
         st["events"] += nev
